@@ -59,7 +59,11 @@ def in_union(path, j):
     return len(path) > 0 and isinstance(path[-1], int) and isinstance(get(j, path[:-1]), list)
 
 
-def evolve_once(j, rng, counter):
+KINDS = ['promote', 'add-field-default', 'remove-field', 'reorder-fields', 'rename-field-alias', 'enum-add-symbol', 'enum-remove-symbol', 'enum-reorder',
+         'union-add-branch', 'union-remove-branch', 'union-reorder', 'wrap-in-union', 'unwrap-union', 'rename-type-alias', 'narrow', 'add-field-no-default', 'kind-change']
+
+
+def evolve_once(j, rng, counter, force_kind=None):
     """returns (new json, label, safe) or None"""
     j = copy.deepcopy(j)
     sites = type_sites(j)
@@ -67,6 +71,8 @@ def evolve_once(j, rng, counter):
     kinds = ['promote', 'add-field-default', 'remove-field', 'reorder-fields', 'rename-field-alias', 'enum-add-symbol', 'enum-remove-symbol', 'enum-reorder',
              'union-add-branch', 'union-remove-branch', 'union-reorder', 'wrap-in-union', 'unwrap-union', 'rename-type-alias', 'narrow', 'add-field-no-default', 'kind-change']
     rng.shuffle(kinds)
+    if force_kind is not None:
+        kinds = [force_kind]
     for kind in kinds:
         for p in sites:
             x = get(j, p)
@@ -152,7 +158,7 @@ def evolve_once(j, rng, counter):
                     if cands:
                         del x[rng.choice(cands)]
                         return j, 'union-remove-branch', False
-                if kind == 'union-reorder' and len(x) > 1 and all('"name"' not in json.dumps(b) and not has_ref(b) for b in x):
+                if kind == 'union-reorder' and len(x) > 1 and all(not has_ref(b) for b in x):
                     x.reverse()
                     return j, 'union-reorder', True
                 if kind == 'unwrap-union' and len(x) == 1 and not in_union(p, j):
@@ -184,7 +190,7 @@ def is_referenced(j, x):
     return text.count('"%s"' % short) + text.count('.%s"' % short) > 1
 
 
-def evolve(j, rng, max_steps=3):
+def evolve(j, rng, max_steps=3, only=None):
     """returns (R json, [labels], all_safe) or None"""
     counter = [0]
     labels = []
